@@ -70,6 +70,10 @@ func NewCommentReader(r io.Reader, startMatches, endMatches [][]byte, isComments
 		b: &bytes.Buffer{},
 	}
 
+	// a token is a whole region up to the end of next string or comment, or all the
+	// remaining data, which may exceed the default 64KB limit of scanner for large file.
+	v.s.Buffer(nil, int(^uint(0)>>1))
+
 	v.s.Split(func(data []byte, atEOF bool) (advance int, token []byte, err error) {
 		if atEOF && len(data) == 0 {
 			// read more.
